@@ -25,11 +25,26 @@ def run(tier, seed):
     if rb.violation != "SoundInv":
         raise vlib.ToolError("self-test: the model without the remainder commitment check is not refuted (%s)" % rb.violation)
     log("[tlc] MC_Fri: Sound holds with the remainder-commitment check; the variant without it is refuted (adaptive strategy)")
+    # the protocol as a state machine (FriProtocol.tla): every adversarial behaviour with 1, 2 and 3 committed layers
+    behaviours = {}
+    pstates = ptrans = 0
+    for L in (1, 2, 3):
+        rp = vlib.run_tlc("MC_FriProtocol", "MC_FriProtocol_TRUE_L%d" % L, workers=2, tag="MC_FriProtocol_T%d" % L)
+        pstates += rp.distinct
+        ptrans += rp.generated
+        if not rp.ok:
+            v.violation("model/protocol/" + str(rp.violation), "FriProtocol.tla (L=%d): %s violated" % (L, rp.violation), {"tlc": rp.out[-3000:]})
+        behaviours[L] = sorted([p for p in rp.printed if "verdict" in p], key=lambda x: json.dumps(x, sort_keys=True))
+        rn = vlib.run_tlc("MC_FriProtocol", "MC_FriProtocol_FALSE_L%d" % L, workers=2, tag="MC_FriProtocol_F%d" % L)
+        if rn.violation != "Sound":
+            raise vlib.ToolError("self-test: FriProtocol without the remainder commitment check is not refuted (L=%d: %s)" % (L, rn.violation))
+    log("[tlc] FriProtocol: %s behaviours (L=1,2,3); Sound/Complete/Order hold; refuted without the remainder-commitment check" % {L: len(b) for L, b in behaviours.items()})
     accepts = {p["s"]: p["accepts"] for p in r.printed if p.get("kind") == "strategy"}
+    accepts["highdeg"] = False
     sched = [p for p in r.printed if p.get("kind") == "sched" and p["ln"] >= 4 and p["lb"] >= 2 and p["ln"] + p["lb"] <= (10 if tier == "quick" else 13)]
     if tier == "quick":
         sched = sched[::7]
-    strategies = [("far", 0), ("degplus", 1), ("degplus", 3), ("degplus", 10 ** 6), ("corrupt", 8), ("corrupt", 12),
+    strategies = [("highdeg", 0), ("far", 0), ("degplus", 1), ("degplus", 3), ("degplus", 10 ** 6), ("corrupt", 8), ("corrupt", 12),
                   ("tamper", 0), ("tamper", 1), ("tamper", 5), ("wrongalpha", 0), ("wrongalpha", 1), ("omit", 0), ("omit", 1),
                   ("swap", 0), ("adaptive", 0)]
     cases = []
@@ -43,6 +58,21 @@ def run(tier, seed):
             cases.append({"id": i, "field": f, "hasher": h, "ext": e, "ln": s["ln"], "lb": s["lb"], "fold": s["fold"], "rem": s["rem"],
                           "q": q, "poly": "random", "strategy": st, "param": param, "dup": False, "seed": seed + i})
             i += 1
+    # every terminal behaviour of the protocol machine, on schedules with the matching number of layers
+    allsched = [p for p in r.printed if p.get("kind") == "sched" and p["ln"] >= 4 and p["lb"] >= 2 and p["ln"] + p["lb"] <= 11]
+    for L, bs in behaviours.items():
+        plain = [x for x in allsched if x["layers"] == L and not x["jump"]][:1] + [x for x in allsched if x["layers"] == L and x["jump"]][:2]
+        jump = [x for x in allsched if x["layers"] == L and x["jump"]][:2]
+        if tier == "quick" and L == 3:
+            bs = bs[seed % 4::4]
+        for b in bs:
+            for s in (jump if b["f0"] == "high" else plain[:2 if tier == "quick" else 3]):
+                f, h, e = c15.COMBOS[i % len(c15.COMBOS)]
+                d = 2 ** (s["ln"] + s["lb"])
+                cases.append({"id": i, "field": f, "hasher": h, "ext": e, "ln": s["ln"], "lb": s["lb"], "fold": s["fold"], "rem": s["rem"],
+                              "q": 3 if b["rem"] == "adaptive" else min(80, d - 1), "poly": "random", "strategy": "model", "param": 0, "dup": False, "seed": seed + i,
+                              "f0": b["f0"], "layers": b["layers"], "openings": b["openings"], "rem_kind": b["rem"], "model_verdict": b["verdict"]})
+                i += 1
     obs = c15.run_cases(exe, cases, wd, "adversary")
     n = rej = skipped = 0
     per = {}
@@ -54,9 +84,11 @@ def run(tier, seed):
         ctx = "degree bound 2^%d-1, blowup %d, folding %d, remainder degree %d, %d queries, %s/%s/ext%d" % (
             c["ln"], 2 ** c["lb"], c["fold"], c["rem"], c["q"], c["field"], c["hasher"], c["ext"])
         verdict = o.get("verify", o.get("prover_panic", "?"))
-        expect_accept = accepts.get(c["strategy"], False)
+        expect_accept = (c.get("model_verdict") == "accept") if c["strategy"] == "model" else accepts.get(c["strategy"], False)
         per[c["strategy"]] = per.get(c["strategy"], 0) + 1
-        if verdict == "ok" and not expect_accept:
+        if verdict != "ok" and expect_accept and not verdict.startswith("panic@"):
+            v.violation("fri/rejected/honest-behaviour", "the behaviour the protocol model accepts (honest run) is rejected: %s (%s)" % (verdict, ctx), c)
+        elif verdict == "ok" and not expect_accept:
             v.violation("fri/accepted/%s" % c["strategy"],
                         "FRI verifier ACCEPTS strategy '%s' (param %s) %s (%s)" % (c["strategy"], c["param"], o.get("note", ""), ctx), c)
         elif verdict.startswith("panic@"):
@@ -67,7 +99,7 @@ def run(tier, seed):
     log("[replay] %d adversarial FRI runs %s, %d rejected, %d not applicable to the schedule" % (n, per, rej, skipped))
     rc = v.finish()
     vlib.write_evidence(PID, tier, seed, "model_checking", {
-        "states": r.distinct + rb.distinct, "transitions": r.generated + rb.generated, "traces_validated_against_impl": n,
+        "states": r.distinct + rb.distinct + pstates, "transitions": r.generated + rb.generated + ptrans, "traces_validated_against_impl": n,
         "samples": cases[:3], "evaluations": n, "distinct_nontrivial": n,
         "rule": "strategy x schedule tuple (LDE size <= 2^%d, blowup >= 4), 80 queries (3 for the adaptive strategy); strategies: %s" % (
             10 if tier == "quick" else 13, strategies),
